@@ -215,11 +215,18 @@ class _RealFinder:
             offset = self._find_last_non_space_char(last_atom - 1)
         if offset >= 0 and (self.code[offset] in "\"'})]" or self._is_id_char(offset)):
             atom_start = self._find_atom_start(offset)
-            if not keyword.iskeyword(self.code[atom_start : offset + 1]) or (
-                offset + 1 < len(self.code) and self._is_id_char(offset + 1)
+            if (
+                not keyword.iskeyword(self.code[atom_start : offset + 1])
+                or (offset + 1 < len(self.code) and self._is_id_char(offset + 1))
+                or self._follows_dot(atom_start)
             ):
                 return atom_start
         return last_atom
+
+    def _follows_dot(self, offset):
+        """An attribute name may be spelled like a keyword prefix: `s.is`"""
+        prev = self._find_last_non_space_char(offset - 1)
+        return prev >= 0 and self.code[prev] == "."
 
     def _find_primary_start(self, offset):
         if offset >= len(self.code):
